@@ -116,7 +116,7 @@ struct Op { char c; int a = 0, b = 0, d = 0; std::vector<int> us; };
 struct Unit { std::vector<Op> ops; int arena = -1; long tag = 0; int sub_thread = -1; bool submitted = false; int started = 0, finished = 0; };
 struct Inflight { int thread, idx, depth; bool worker /* role in this arena */, wthread /* created by the library */; };
 struct Obs;
-struct Arena { int mc, res, pri; tbb::task_arena* ta = nullptr; Obs* obs = nullptr; std::vector<Inflight> in; std::map<int, int> obs_cnt; std::map<int, int> slot_last; long entries = 0, exits = 0; int max_in = 0; };
+struct Arena { int mc, res, pri; tbb::task_arena* ta = nullptr; Obs* obs = nullptr; std::vector<Inflight> in; std::map<int, int> obs_cnt, obs_idx; std::map<int, int> slot_last; long entries = 0, exits = 0; int max_in = 0; bool enq_seen = false; /* enqueue, or an execute whose functor was delegated, into this arena since the last quiescent point */ int x_pending = 0; /* execute() calls into this arena whose functor has not started */ };
 static std::vector<Arena> AR; static std::vector<Unit> U;
 static std::map<int, tbb::global_control*> GC; static std::map<int, int> GCV; static int L0 = 2;
 static int win_max = 1; static bool enq_seen = false, g_witness = false; static int x_pending = 0;   // execute() calls whose functor has not started: may be delegated = enqueued
@@ -134,12 +134,17 @@ struct Obs : tbb::task_scheduler_observer {
     Obs(tbb::task_arena& a, int i) : tbb::task_scheduler_observer(a), ai(i) {}
     void on_scheduler_entry(bool is_worker) override {
         int me = vs_self(); AR[(size_t)ai].obs_cnt[me]++; AR[(size_t)ai].entries++;
+        // between its entry and its exit notification a thread owns its slot: nobody else may be notified of an entry with the same index meanwhile
+        int idx = tbb::this_task_arena::current_thread_index();
+        for (auto& kv : AR[(size_t)ai].obs_idx) if (kv.first != me && kv.second == idx && AR[(size_t)ai].obs_cnt[kv.first] > 0)
+            vs_violation("SLOT-SHARED", "arena %d: thread %d got on_scheduler_entry with current_thread_index()=%d while thread %d, which entered with the same index, has not had its on_scheduler_exit yet", ai, me, idx, kv.first);
+        if (AR[(size_t)ai].obs_cnt[me] == 1) AR[(size_t)ai].obs_idx[me] = idx;
         if (is_worker && vs_is_scenario_thread(me)) vs_violation("OBSERVER-WORKER-FLAG", "on_scheduler_entry(is_worker=true) on external thread %d in arena %d", me, ai);
     }
     void on_scheduler_exit(bool) override {
         int me = vs_self(); int& c = AR[(size_t)ai].obs_cnt[me]; AR[(size_t)ai].exits++;
         if (c <= 0) vs_violation("OBSERVER-UNBALANCED", "on_scheduler_exit on thread %d in arena %d without a matching on_scheduler_entry", me, ai);
-        c--;
+        c--; if (c == 0) AR[(size_t)ai].obs_idx.erase(me);
     }
 };
 
@@ -187,6 +192,8 @@ static BodyScope body_enter(int ai, long tag, bool same_thread_inline) {
         if (w > max_workers_seen) max_workers_seen = w;
         if (w == bound) n_budget_tight++;
         if (w > bound) vs_violation("WORKER-BUDGET", "%d worker threads execute bodies simultaneously; largest max_allowed_parallelism in force since the last quiescent point is %d%s", w, win_max, mand ? " (enqueued work: one mandatory worker)" : "");
+        // under a limit of 1 the only worker is the mandatory one, and it is granted for enqueued work: it must be in an arena that has some
+        if (worker && win_max == 1 && !a.enq_seen && a.x_pending == 0) vs_violation("MANDATORY-WORKER-MISPLACED", "max_allowed_parallelism is 1 since the last quiescent point and a worker thread executes a body in arena %d, into which nothing was enqueued (the mandatory worker belongs to the arenas with enqueued work)", ai);
     }
     BodyScope s; s.arena = ai; s.saved_arena = ts.arena; if (ts.arena >= 0 && ts.arena != ai) n_nested_arena++;
     ts.arena = ai; ts.tags.push_back(tag);
@@ -230,15 +237,15 @@ static void run_ops(const std::vector<Op>& ops) {
         case 'X': {
             // A full arena turns execute() into an enqueued delegate (mandatory concurrency) -- and the caller may still end up running that functor itself
             // (it enters when a slot frees), so a delegation cannot be recognised from outside: every execute() counts as possibly enqueued work.
-            int u = op.b, me = vs_self(); submit(u, op.a, 0); x_pending++; enq_seen = true;
+            int u = op.b, me = vs_self(); submit(u, op.a, 0); x_pending++; enq_seen = true; AR[(size_t)op.a].x_pending++; AR[(size_t)op.a].enq_seen = true;
             int xa = op.a;
             ts.xarenas.push_back(xa);     // also while it waits for a delegated functor the caller sits in the arena as an external thread
             ts.tags.push_back(0);         // ... and execute() drops the caller's isolation for its whole duration (nested_arena_context)
-            AR[(size_t)op.a].ta->execute([u, me] { bool same = vs_self() == me; x_pending--; if (!same) n_delegated++; run_unit_body(u, same); });
+            { int xa = op.a; AR[(size_t)op.a].ta->execute([u, me, xa] { bool same = vs_self() == me; x_pending--; AR[(size_t)xa].x_pending--; if (!same) n_delegated++; run_unit_body(u, same); }); }
             ts.tags.pop_back(); ts.xarenas.pop_back();
             if (U[(size_t)u].finished != 1) vs_violation("EXECUTE-RETURNED-EARLY", "task_arena::execute returned but unit %d finished %d times", u, U[(size_t)u].finished);
             break; }
-        case 'E': { int u = op.b; submit(u, op.a, 0); enq_seen = true; AR[(size_t)op.a].ta->enqueue([u] { run_unit_body(u, false); }); break; }
+        case 'E': { int u = op.b; submit(u, op.a, 0); enq_seen = true; AR[(size_t)op.a].enq_seen = true; AR[(size_t)op.a].ta->enqueue([u] { run_unit_body(u, false); }); break; }
         case 'I': {
             int u = op.a; Unit& x = U[(size_t)u]; if (x.submitted) vs_inconclusive("BAD-CASE", "unit %d submitted twice", u); x.submitted = true; x.started++;
             long tag = next_tag++;
@@ -374,7 +381,7 @@ void h_run(Case& c) {
             if (r > 0 || !G_[(size_t)r].empty()) vs_wait_quiescent();
             for (auto& op : G_[(size_t)r]) gc_op(op, true);
             if (!G_[(size_t)r].empty()) vs_wait_quiescent();      // whoever was woken by a transiently higher limit is asleep again
-            win_max = cur_L(); enq_seen = false;
+            win_max = cur_L(); enq_seen = false; for (auto& a : AR) a.enq_seen = false;
             round_go = r;
             if (!TS_[(size_t)r].empty()) run_ops(TS_[(size_t)r][0]);
             round_done[(size_t)r][0] = 1;
